@@ -249,7 +249,8 @@ class Run(object):
     status = 0
     for (kname, key), lst in by_key.items():
       case, v = lst[0]
-      art = {"property": self.pid, "kind": kname, "case": to_json(case),
+      art = {"property": self.pid, "kind": v.get("replay_kind", kname),
+             "case": to_json(v.get("replay_case", case)),
              "key": key, "what": v["what"], "expected": v["expected"],
              "observed": v["observed"], "occurrences": len(lst)}
       k = match_known(known, key)
